@@ -902,6 +902,48 @@ func replayCorpus(c *hx.Ctx, o *observer, byName map[string]protoreflect.Message
 	}
 }
 
+// ---------------------------------------------------------------- invalid UTF-8 (observed, not judged)
+
+// observeInvalidUTF8 records how the two codecs treat a Go string that is not valid UTF-8.  Such a
+// string is not a value of the proto3 type "string", so C12 is silent about it (props/C12.json,
+// assumptions); on the pinned tree the reflection codec refuses to encode and to decode it while the
+// generated VT codec does neither check.  Only counted, never a failure.
+func observeInvalidUTF8(c *hx.Ctx) {
+	bad := "ok\xff\xfe"
+	msgs := []proto.Message{
+		&api.Mount{Type: bad},
+		&api.KeyValue{Key: "k", Value: bad},
+		&api.Mount{Options: []string{"ro", bad}},
+		&api.PodSandbox{Labels: map[string]string{"k": bad}},
+	}
+	for _, m := range msgs {
+		_, perr := proto.Marshal(m)
+		vb, verr := m.(vtMsg).MarshalVT()
+		if perr != nil {
+			c.Count("utf8_invalid.reflection_codec_refuses_to_encode", 1)
+		} else {
+			c.Count("utf8_invalid.reflection_codec_encodes", 1)
+		}
+		if verr != nil {
+			c.Count("utf8_invalid.vt_codec_refuses_to_encode", 1)
+			continue
+		}
+		c.Count("utf8_invalid.vt_codec_encodes", 1)
+		n := m.ProtoReflect().New().Interface()
+		if err := proto.Unmarshal(vb, n); err != nil {
+			c.Count("utf8_invalid.reflection_codec_refuses_vt_bytes", 1)
+		} else {
+			c.Count("utf8_invalid.reflection_codec_decodes_vt_bytes", 1)
+		}
+		n2 := m.ProtoReflect().New().Interface()
+		if err := n2.(vtMsg).UnmarshalVT(vb); err != nil {
+			c.Count("utf8_invalid.vt_codec_refuses_vt_bytes", 1)
+		} else {
+			c.Count("utf8_invalid.vt_codec_decodes_vt_bytes", 1)
+		}
+	}
+}
+
 // ---------------------------------------------------------------- driver
 
 func driveProto(c *hx.Ctx) error {
@@ -925,18 +967,18 @@ func driveProto(c *hx.Ctx) error {
 	perShard := 250
 
 	// 1. corpus
-	oc := &observer{c: c, stream: "corpus", sh: c.NewShard("corpus", imports, "proto_case", "corr_proto", "holds_proto", perShard)}
+	oc := &observer{c: c, stream: "s1_corpus", sh: c.NewShard("s1_corpus", imports, "proto_case", "corr_proto", "holds_proto", perShard)}
 	replayCorpus(c, oc, byName)
 
 	// 2. every field singly, boundary values, optionals, maps, repeated
-	os1 := &observer{c: c, stream: "single", sh: c.NewShard("single", imports, "proto_case", "corr_proto", "holds_proto", perShard)}
+	os1 := &observer{c: c, stream: "s2_single", sh: c.NewShard("s2_single", imports, "proto_case", "corr_proto", "holds_proto", perShard)}
 	rs := c.Rand("single")
 	for _, mt := range types {
 		singles(os1, mt, rs)
 	}
 
 	// 3. random combinations
-	or := &observer{c: c, stream: "random", sh: c.NewShard("random", imports, "proto_case", "corr_proto", "holds_proto", perShard)}
+	or := &observer{c: c, stream: "s3_random", sh: c.NewShard("s3_random", imports, "proto_case", "corr_proto", "holds_proto", perShard)}
 	rr := c.Rand("random")
 	perType := c.Pick(24, 1500)
 	for _, mt := range types {
@@ -952,7 +994,7 @@ func driveProto(c *hx.Ctx) error {
 	}
 
 	// 4. decoder inputs that no encoder produces
-	ds := c.NewShard("decode", imports, "dec_case", "corr_dec", "", perShard)
+	ds := c.NewShard("s4_decode", imports, "dec_case", "corr_dec", "", perShard)
 	rd := c.Rand("decode")
 	perTypeD := c.Pick(12, 300)
 	decOne := func(mt protoreflect.MessageType, hasVT bool, mb []byte, kind string) {
@@ -961,9 +1003,9 @@ func driveProto(c *hx.Ctx) error {
 		if hasVT {
 			vtO = decObs(mt, mb, true)
 		}
-		rd0 := rawDec{Stream: "decode", Msg: string(mt.Descriptor().Name()), Kind: kind, Bytes: hex.EncodeToString(mb), PB: pbO, VT: vtO}
+		rd0 := rawDec{Stream: "s4_decode", Msg: string(mt.Descriptor().Name()), Kind: kind, Bytes: hex.EncodeToString(mb), PB: pbO, VT: vtO}
 		if strings.HasPrefix(pbO, "PANIC") || strings.HasPrefix(vtO, "PANIC") {
-			c.ImplFail("decode", "a decoder panicked on "+kind+" input", rd0)
+			c.ImplFail("s4_decode", "a decoder panicked on "+kind+" input", rd0)
 			return
 		}
 		if hasVT && pbO != vtO {
@@ -1000,6 +1042,8 @@ func driveProto(c *hx.Ctx) error {
 			decOne(mt, hasVT, mb, kind)
 		}
 	}
+
+	observeInvalidUTF8(c)
 
 	c.Stats.Rule = fmt.Sprintf("all %d message types of the compiled descriptor (%d with generated MarshalVT/UnmarshalVT/SizeVT, compared against both codecs); "+
 		"single: every field alone over the boundary values of its kind (varint length edges, +-1, min/max of the Go type, strings of 127/128/300 bytes and multi-byte UTF-8), "+
